@@ -34,6 +34,17 @@ type InternalCron struct {
 	Cron *Cron
 }
 
+// jobId qualifies a rule's id with its location's name: rule ids are
+// only unique within a location, and all locations share this cron.
+func jobId(ctx *core.Context, id string) string {
+	if ctx != nil {
+		if loc := ctx.Location(); loc != nil {
+			return loc.Name + "\x00" + id
+		}
+	}
+	return id
+}
+
 func (c *InternalCron) ScheduleEvent(ctx *core.Context, se *ScheduledEvent) error {
 	sched, _, err := ParseSchedule(se.Schedule)
 	if err != nil {
@@ -57,7 +68,7 @@ func (c *InternalCron) ScheduleEvent(ctx *core.Context, se *ScheduledEvent) erro
 		core.Log(core.DEBUG|CRON, ctx, "InternalCron.ScheduleEvent", "findrules", *fr)
 		return nil
 	}
-	return c.Cron.Add(ctx, se.Id, sched, fn)
+	return c.Cron.Add(ctx, jobId(ctx, se.Id), sched, fn)
 }
 
 func (c *InternalCron) Schedule(ctx *core.Context, sw *ScheduledWork) error {
@@ -102,7 +113,8 @@ func (c *InternalCron) Schedule(ctx *core.Context, sw *ScheduledWork) error {
 }
 
 func (c *InternalCron) Rem(ctx *core.Context, id string) (bool, error) {
-	return c.Cron.Rem(ctx, id)
+	// Called by the rule-removal hook (see AddHooks): the id is a rule's.
+	return c.Cron.Rem(ctx, jobId(ctx, id))
 }
 
 func (c *InternalCron) Persistent() bool {
